@@ -1,0 +1,13 @@
+//go:build verif
+
+// Contracts of this package for the govc verification-condition generator (/verif).
+// Comment-only file: it adds no declarations and is not even parsed without the `verif` tag.
+
+package jsonparser
+
+// C10: whatever bytes a peer sends, parsing the header either fails with an error or yields a header
+// with a non-negative attachment count; it never panics (all index/slice/nil obligations are generated and discharged).
+//@ func (*Parser).parseHeader
+//@   requires p.json != nil
+//@   ensures err == nil ==> header != nil && header.Attachments >= 0 [C10.hdr.att]
+//@   ensures err == nil && header.Type != 5 && header.Type != 6 ==> header.Attachments == 0 [C10.hdr.att.nonbinary]
